@@ -138,6 +138,10 @@ package datastore
 //@            callarg(Modify, 1, 3).Priority == callres(GetPriority, 1) && callarg(Modify, 1, 3).Owner == callres(GetName, 11)
 //@   loop 3 invariant former_version_removed_under_its_priority [C02]: called(Modify, 0) ==> callarg(Modify, 0, 3).Store == INTENDED &&
 //@            callarg(Modify, 0, 3).Priority == callres(GetFirstPriorityValue, 2) && callres(GetFirstPriorityValue, 1) != callres(GetPriority, 0) && len(callarg(Modify, 0, 5)) == 0
+// what is written for an intent is what the tree holds for that owner (shadowed values included), not what goes to the device
+//@   loop 3 invariant the_intent_is_written_as_the_tree_holds_it [C01 C02]: called(Modify, 1) ==> callarg(Modify, 1, 5) == callres(GetUpdatesForOwner, 0) &&
+//@            callarg(GetUpdatesForOwner, 0, 1) == callarg(Modify, 1, 3).Owner && callarg(Modify, 1, 4) == callres(ToStringSlice, 1) &&
+//@            callarg(ToStringSlice, 1, 0) == callres(GetDeletesForOwner, 0) && callarg(GetDeletesForOwner, 0, 1) == callarg(Modify, 1, 3).Owner
 // what is removed there is all of the former content, whatever the new version keeps of it
 //@   loop 3 invariant all_of_the_former_version_is_removed_there [C01 C02]: called(Modify, 0) ==> callarg(Modify, 0, 4) == callres(ToStringSlice, 0) &&
 //@            callarg(ToStringSlice, 0, 0) == callres(GetPaths, 0) && callarg(GetPaths, 0, 0) == callres(ToPathSet, 2) &&
